@@ -140,7 +140,7 @@ func VerifP_C01C02C04C05C11_Lookups(i int) {
 	verifReach("end")
 }
 
-func VerifP_C01C02C04C05C12_Hover_N() int { return len(verifSeedList()) }
+func VerifP_C01C02C04C05C12_Hover_N() int            { return len(verifSeedList()) }
 func VerifP_C01C02C04C05C12_Hover_Name(i int) string { return verifSeedList()[i].name }
 func VerifP_C01C02C04C05C12_Hover(i int) {
 	d, seed := verifSeedDecoder(i)
@@ -214,6 +214,30 @@ func verifCheckHoverElement(body *hclsyntax.Body, bs *schema.BodySchema, pos hcl
 		if verifIn(attr.Expr.Range(), pos) {
 			if hd != nil {
 				verifAssert(verifAnd(attr.Expr.Range().Start.Byte <= hd.Range.Start.Byte, hd.Range.End.Byte <= attr.Expr.Range().End.Byte), "C12:value-hover-range-inside-the-value"+at)
+				// an object item: a hover that names an attribute of the object names the one written
+				// as this item's key, and one that spans only the item's value is not typed by a sibling
+				if oc, isObj := as.Constraint.(schema.Object); isObj {
+					if oe, isCons := attr.Expr.(*hclsyntax.ObjectConsExpr); isCons {
+						for _, it := range oe.Items {
+							if !verifAnd(it.KeyExpr.Range().Start.Byte <= pos.Byte, pos.Byte <= it.ValueExpr.Range().End.Byte) {
+								continue
+							}
+							key, raw := verifWrittenKey(it.KeyExpr)
+							for n, oa := range oc.Attributes {
+								if strings.HasPrefix(hd.Content.Value, "**"+n+"**") {
+									verifAssert(raw && key == n, "C12:object-item-hover-names-the-item-under-the-cursor"+at)
+								}
+								if !raw || key != n {
+									if lt, isLit := oa.Constraint.(schema.LiteralType); isLit && verifSameRange(hd.Range, it.ValueExpr.Range()) {
+										if lv, isVal := it.ValueExpr.(*hclsyntax.LiteralValueExpr); isVal && !lv.Val.Type().Equals(lt.Type) {
+											verifAssert(hd.Content.Value != "_"+lt.Type.FriendlyName()+"_", "C12:object-item-value-not-described-by-a-sibling's-type"+at)
+										}
+									}
+								}
+							}
+						}
+					}
+				}
 			}
 			return
 		}
@@ -424,6 +448,33 @@ func verifSpecDependentBodyResolved(block *hclsyntax.Block, bsch *schema.BlockSc
 func verifSpecDependentBody(block *hclsyntax.Block, bsch *schema.BlockSchema, es []verifDepEntry) *schema.BodySchema {
 	b, _ := verifSpecDependentBodyKeys(block, bsch, es)
 	return b
+}
+
+// verifSpecEffectiveNoDynamic: like verifSpecEffective, but nil where the re-statement does not
+// apply (dependent bodies not listed); dynamic blocks are ignored (the nested block types stay).
+func verifSpecEffectiveNoDynamic(block *hclsyntax.Block, bsch *schema.BlockSchema) *schema.BodySchema {
+	es := verifDepEntriesOf(block.Type)
+	if bsch.Body == nil || (es == nil && len(bsch.DependentBody) > 0) {
+		return nil
+	}
+	out := &schema.BodySchema{Attributes: map[string]*schema.AttributeSchema{}, Blocks: map[string]*schema.BlockSchema{}, Extensions: bsch.Body.Extensions}
+	for n, a := range bsch.Body.Attributes {
+		out.Attributes[n] = a
+	}
+	for n, b := range bsch.Body.Blocks {
+		out.Blocks[n] = b
+	}
+	if es != nil {
+		if db := verifSpecDependentBody(block, bsch, es); db != nil {
+			for n, a := range db.Attributes {
+				out.Attributes[n] = a
+			}
+			for n, b := range db.Blocks {
+				out.Blocks[n] = b
+			}
+		}
+	}
+	return out
 }
 
 // verifCheckLinks: documentation links are attached to exactly the written labels and attribute
@@ -787,7 +838,7 @@ func VerifP_C07_LabelCompletion(i int) {
 	verifReach("end")
 }
 
-func VerifP_C01C02C04C05C06C08_Completion_N() int { return len(verifSeedList()) }
+func VerifP_C01C02C04C05C06C08_Completion_N() int            { return len(verifSeedList()) }
 func VerifP_C01C02C04C05C06C08_Completion_Name(i int) string { return verifSeedList()[i].name }
 func VerifP_C01C02C04C05C06C08_Completion(i int) {
 	d, _ := verifSeedDecoder(i)
@@ -800,6 +851,7 @@ func VerifP_C01C02C04C05C06C08_Completion(i int) {
 			if body, ok := d.pathCtx.Files[vf].Body.(*hclsyntax.Body); ok {
 				verifCheckLabelCandidates(body, verifOracleSchema(i), pos, cs)
 			}
+			verifCheckSelfCandidates(d, verifOracleSchema(i), pos, cs)
 			verifCheckArgCandidates(d, pos, cs)
 			verifCheckFunctionCandidates(d, pos, cs)
 		}
@@ -884,7 +936,7 @@ func verifSameModifiers(a, b lang.SemanticTokenModifiers) bool {
 	return true
 }
 
-func VerifP_C01C02C04C05C13_SemTok_N() int { return len(verifSeedList()) }
+func VerifP_C01C02C04C05C13_SemTok_N() int            { return len(verifSeedList()) }
 func VerifP_C01C02C04C05C13_SemTok_Name(i int) string { return verifSeedList()[i].name }
 func VerifP_C01C02C04C05C13_SemTok(i int) {
 	d, _ := verifSeedDecoder(i)
@@ -1050,7 +1102,7 @@ func verifItoa(n int) string {
 	return s
 }
 
-func VerifP_C01C02C04C05C14_Symbols_N() int { return len(verifSeedList()) }
+func VerifP_C01C02C04C05C14_Symbols_N() int            { return len(verifSeedList()) }
 func VerifP_C01C02C04C05C14_Symbols_Name(i int) string { return verifSeedList()[i].name }
 func VerifP_C01C02C04C05C14_Symbols(i int) {
 	d, _ := verifSeedDecoder(i)
@@ -1093,6 +1145,33 @@ func VerifP_C01C02C04C05C14_Symbols(i int) {
 	verifNoWrites("C04:symbols-writes", true)
 	verifNoWrites("C05:symbols-writes", false)
 	verifReach("end")
+}
+
+// verifCheckLabelCounts: a top-level block of a known type with more labels than its schema
+// declares gets one error per surplus label, each on its own label; one with fewer gets one error.
+func verifCheckLabelCounts(body *hclsyntax.Body, bs *schema.BodySchema, diags hcl.Diagnostics) {
+	if bs == nil {
+		return
+	}
+	for _, block := range body.Blocks {
+		bsch, ok := bs.Blocks[block.Type]
+		if !ok {
+			continue
+		}
+		for k, lr := range block.LabelRanges {
+			n := 0
+			for _, dg := range diags {
+				if strings.HasPrefix(dg.Summary, "Too many labels") && dg.Subject != nil && verifSameRange(*dg.Subject, lr) {
+					n++
+				}
+			}
+			if k >= len(bsch.Labels) {
+				verifAssert(n == 1, "C15:one-error-on-every-surplus-label")
+			} else {
+				verifAssert(n == 0, "C15:no-error-on-a-declared-label")
+			}
+		}
+	}
 }
 
 // verifCheckUnexpected: 'unexpected' diagnostics are exactly the top-level items, and the items
@@ -1181,7 +1260,7 @@ func verifCheckUnexpected(body *hclsyntax.Body, bs *schema.BodySchema, diags hcl
 	}
 }
 
-func VerifP_C01C02C04C05C15_Validate_N() int { return len(verifSeedList()) }
+func VerifP_C01C02C04C05C15_Validate_N() int            { return len(verifSeedList()) }
 func VerifP_C01C02C04C05C15_Validate_Name(i int) string { return verifSeedList()[i].name }
 func VerifP_C01C02C04C05C15_Validate(i int) {
 	d, _ := verifSeedDecoder(i)
@@ -1197,10 +1276,14 @@ func VerifP_C01C02C04C05C15_Validate(i int) {
 			if body, ok := d.pathCtx.Files[vf].Body.(*hclsyntax.Body); ok {
 				verifCheckUnexpected(body, verifOracleSchema(i), diags)
 			}
+			if body, ok := d.pathCtx.Files[vf].Body.(*hclsyntax.Body); ok {
+				verifCheckLabelCounts(body, verifOracleSchema(i), diags)
+			}
 			if s := verifSeedList()[i]; len(s.name) > 6 && s.name[:6] == "valid-" {
 				// a configuration that conforms to the schema at every depth
 				for _, dg := range diags {
 					verifAssert(dg.Summary != "Unexpected attribute" && dg.Summary != "Unexpected block", "C15:nothing-unexpected-in-a-conforming-configuration")
+					verifAssert(!strings.HasPrefix(dg.Summary, "Too many blocks"), "C15:no-surplus-block-in-a-conforming-configuration")
 				}
 			}
 		}
@@ -1210,7 +1293,7 @@ func VerifP_C01C02C04C05C15_Validate(i int) {
 	verifReach("end")
 }
 
-func VerifP_C01C02C04C05C09_Targets_N() int { return len(verifSeedList()) }
+func VerifP_C01C02C04C05C09_Targets_N() int            { return len(verifSeedList()) }
 func VerifP_C01C02C04C05C09_Targets_Name(i int) string { return verifSeedList()[i].name }
 func VerifP_C01C02C04C05C09_Targets(i int) {
 	// the first query on a fresh schema: what it writes into the caller's schema for good would be
@@ -1600,6 +1683,9 @@ func verifCheckTargets(ts reference.Targets, parent *reference.Target) {
 				verifAssert(verifAnd(t.RangePtr.Start.Byte <= t.DefRangePtr.Start.Byte, t.DefRangePtr.End.Byte <= t.RangePtr.End.Byte), "C09:definition-inside-declaration")
 			}
 		}
+		if parent != nil && parent.RangePtr != nil {
+			verifAssert(t.RangePtr != nil, "C09:nested-target-of-a-located-target-is-located")
+		}
 		if parent != nil && len(parent.Addr) > 0 && len(t.Addr) > 0 {
 			verifAssert(len(t.Addr) == len(parent.Addr)+1, "C09:nested-address-one-step-longer")
 			if len(t.Addr) == len(parent.Addr)+1 {
@@ -1637,7 +1723,7 @@ func verifCheckTargets(ts reference.Targets, parent *reference.Target) {
 	}
 }
 
-func VerifP_C01C02C04C05C10_Origins_N() int { return len(verifSeedList()) }
+func VerifP_C01C02C04C05C10_Origins_N() int            { return len(verifSeedList()) }
 func VerifP_C01C02C04C05C10_Origins_Name(i int) string { return verifSeedList()[i].name }
 func VerifP_C01C02C04C05C10_Origins(i int) {
 	d, _, s := verifSeedDecoderFresh(i)
@@ -1823,7 +1909,7 @@ func verifRefsUnder(expr hclsyntax.Expression, cons schema.Constraint, selfOK bo
 	return out
 }
 
-func VerifP_C01C02C04C05C20_Signature_N() int { return len(verifSeedList()) }
+func VerifP_C01C02C04C05C20_Signature_N() int            { return len(verifSeedList()) }
 func VerifP_C01C02C04C05C20_Signature_Name(i int) string { return verifSeedList()[i].name }
 func VerifP_C01C02C04C05C20_Signature(i int) {
 	d, _ := verifSeedDecoder(i)
@@ -1841,6 +1927,42 @@ func VerifP_C01C02C04C05C20_Signature(i int) {
 	verifNoWrites("C04:signature-writes", true)
 	verifNoWrites("C05:signature-writes", false)
 	verifReach("end")
+}
+
+// verifCheckSelfCandidates: block-local self.* names are offered only in bodies that enable them:
+// with the cursor directly inside a nested block of a top-level block whose own (static or selected
+// dependent) schema does not enable self references, no candidate is a self.* reference.
+func verifCheckSelfCandidates(d *PathDecoder, bs *schema.BodySchema, pos hcl.Pos, cs lang.Candidates) {
+	body, ok := d.pathCtx.Files[vf].Body.(*hclsyntax.Body)
+	if !ok || bs == nil {
+		return
+	}
+	for _, block := range body.Blocks {
+		bsch, ok := bs.Blocks[block.Type]
+		if !ok || block.Body == nil {
+			continue
+		}
+		eff := verifSpecEffectiveNoDynamic(block, bsch)
+		if eff == nil {
+			continue
+		}
+		for _, nb := range block.Body.Blocks {
+			if nb.Body == nil || !verifAnd(nb.OpenBraceRange.End.Byte <= pos.Byte, pos.Byte <= nb.CloseBraceRange.Start.Byte) {
+				continue
+			}
+			nsch, ok := eff.Blocks[nb.Type]
+			if !ok || nsch.Body == nil {
+				return
+			}
+			if nsch.Body.Extensions != nil && nsch.Body.Extensions.SelfRefs {
+				return
+			}
+			for _, c := range cs.List {
+				verifAssert(!strings.HasPrefix(c.Label, "self.") && c.Label != "self", "C08:self-references-only-where-the-body-enables-them"+verifCursorTag())
+			}
+			return
+		}
+	}
 }
 
 // verifCheckFunctionCandidates: inside the value of a top-level attribute constrained by
@@ -2051,10 +2173,34 @@ func verifCheckSignature(d *PathDecoder, pos hcl.Pos, sig *lang.FunctionSignatur
 	}
 }
 
-func VerifP_C01C02C04C05C16_Links_N() int { return len(verifSeedList()) }
+func VerifP_C01C02C04C05C16_Links_N() int            { return len(verifSeedList()) }
 func VerifP_C01C02C04C05C16_Links_Name(i int) string { return verifSeedList()[i].name }
 func VerifP_C01C02C04C05C16_Links(i int) {
-	d, _ := verifSeedDecoder(i)
+	d, _, _ := verifSeedDecoderFresh(i)
+	// what a body offers right inside the first block, asked first thing on the fresh schema ...
+	var probe hcl.Pos
+	haveProbe := false
+	if body, ok := d.pathCtx.Files[vf].Body.(*hclsyntax.Body); ok && len(body.Blocks) > 0 && body.Blocks[0].OpenBraceRange.End.Byte > body.Blocks[0].OpenBraceRange.Start.Byte {
+		probe, haveProbe = body.Blocks[0].OpenBraceRange.End, true
+	}
+	var before lang.Candidates
+	var beforeErr error
+	if haveProbe {
+		before, beforeErr = d.CompletionAtPos(context.Background(), vf, probe)
+	}
+	defer func() {
+		// ... and again after the other queries of this harness: the schema in force did not change
+		if haveProbe {
+			after, afterErr := d.CompletionAtPos(context.Background(), vf, probe)
+			verifAssert((beforeErr == nil) == (afterErr == nil), "C16:same-schema-in-force-before-and-after-other-queries")
+			verifAssert(len(before.List) == len(after.List), "C16:same-schema-in-force-before-and-after-other-queries")
+			for k := range before.List {
+				if k < len(after.List) {
+					verifAssert(before.List[k].Label == after.List[k].Label, "C16:same-schema-in-force-before-and-after-other-queries")
+				}
+			}
+		}
+	}()
 	verifFreeze(d.pathCtx)
 	verifQuery(func() {
 		links, err := d.LinksInFile(vf)
